@@ -4,6 +4,10 @@ import random, struct
 def fbits(x):
     return struct.unpack('>Q', struct.pack('>d', x))[0]
 
+def f32bits(x):
+    return struct.unpack('>I', struct.pack('>f', x))[0]
+
+
 NAN = 0x7ff8000000000001
 SPECIAL_VALUES = [0x0000000000000000, 0x8000000000000000, 0x7ff0000000000000, 0xfff0000000000000,
                   0x0000000000000001, fbits(0.1), fbits(1e300), fbits(-2.5), fbits(123456.789012345678)]
